@@ -396,3 +396,63 @@ func (c *Ctx) delegatesTo(rule string, f *ssa.Function, resIdx int, callees []st
 		fmt.Sprintf("%d non-failure exit(s) all return a verifier's result unchanged", n),
 		fmt.Sprintf("%s has a success exit that does not come from a verifier: %s", fnName(f), strings.Join(offenders, ", ")))
 }
+
+// definitelyAssigned: on every path from entry to a success return of f, the local variable
+// whose address is alloc receives a value (a store to it or into it). Reports otherwise: the
+// function can succeed returning the variable's zero value.
+func (c *Ctx) definitelyAssigned(rule string, f *ssa.Function, resIdx int, varName string) {
+	if f == nil {
+		return
+	}
+	var al *ssa.Alloc
+	allInstrs(f, func(_ *ssa.BasicBlock, i ssa.Instruction) {
+		if a, ok := i.(*ssa.Alloc); ok && a.Comment == varName {
+			al = a
+		}
+	})
+	key := fnName(f) + " result " + varName + " assigned on every success path"
+	if al == nil {
+		c.bad(rule, key, f.Pos(), "local variable "+varName+" not found (anchor moved?)")
+		return
+	}
+	// blocks that assign the variable
+	assign := map[*ssa.BasicBlock]bool{}
+	allInstrs(f, func(b *ssa.BasicBlock, i ssa.Instruction) {
+		switch x := i.(type) {
+		case *ssa.Store:
+			base := x.Addr
+			for {
+				switch y := base.(type) {
+				case *ssa.IndexAddr:
+					base = y.X
+					continue
+				case *ssa.FieldAddr:
+					base = y.X
+					continue
+				}
+				break
+			}
+			if base == ssa.Value(al) {
+				if _, zero := x.Val.(*ssa.Const); !zero {
+					assign[b] = true
+				}
+			}
+		}
+	})
+	// success returns reachable without passing an assigning block?
+	cut := map[edge]bool{}
+	for b := range assign {
+		for i := range b.Succs {
+			cut[edge{b, i}] = true
+		}
+	}
+	reach := reachableWithout(f, cut)
+	var offenders []string
+	for _, sp := range successPoints(f, resIdx) {
+		if reach[sp.Block] && !assign[sp.Block] {
+			offenders = append(offenders, c.rel(sp.Ret.Pos()))
+		}
+	}
+	c.check(len(offenders) == 0 && len(assign) > 0, rule, key, al.Pos(), fmt.Sprintf("%d assigning block(s); no success return is reachable around them", len(assign)),
+		fmt.Sprintf("%s can return success with %s still holding its zero value (return at %s): e.g. a switch without a matching case and without default", fnName(f), varName, strings.Join(offenders, ", ")))
+}
